@@ -99,6 +99,13 @@ class AddWatcher(Command):
 
     def validate(self, props):
         super(AddWatcher, self).validate(props)
+        try:
+            if isinstance(props['name'], str):
+                props['name'].encode('utf8')
+        except UnicodeEncodeError:
+            # (a lone surrogate: the name could never be published on the
+            # event channel)
+            raise MessageError("'name' cannot be encoded as UTF-8")
         if 'options' in props:
             options = props.get('options')
             if not isinstance(options, dict):
